@@ -253,6 +253,10 @@ pub fn run(prop: &str, thorough: bool, seed: u64, rep: &mut Report) {
         rep.checks.push("C01: all entry points agree".into());
         for_each(&structural, 4, |s| check_entry_points(s, rep));
         for_each(&numeric, 4, |s| check_entry_points(s, rep));
+        // characters that Rust's `trim` / `char::is_whitespace` treat as blank but JSON does not, and the
+        // four that JSON does: every entry point must agree with `parse_str` on them, in any position
+        let blanks = ["1", "[", "]", "true", " ", "\t", "\n", "\r", "\u{b}", "\u{c}", "\u{a0}", "\u{85}", "\u{2028}", "\u{feff}", "\u{3000}"];
+        for_each(&blanks, 3, |s| check_entry_points(s, rep));
     }
     if prop == "C01" || prop == "C05" || prop == "C07" {
         rep.checks.push(format!("{}: byte-slice entry point on ill-formed and multi-byte UTF-8", prop));
@@ -300,6 +304,13 @@ pub fn run(prop: &str, thorough: bool, seed: u64, rep: &mut Report) {
             }
         }
         rep.bounds.push(("duplicate_key_members".into(), maxm.to_string()));
+        // many distinct keys: the hash index goes through several growth / rehash cycles
+        for n in [4usize, 5, 8, 9, 16, 17, 33, 70, 150] {
+            let mut doc = String::from("{");
+            for i in 0..n { if i > 0 { doc.push(','); } doc.push_str(&format!("\"key{}\":{}", i % (n - n / 4), i)); }
+            doc.push('}');
+            check_text(prop, &doc, rep);
+        }
     }
     if prop == "C02" {
         // every \uXXXX code unit, alone (all four option records); surrogate pairs; raw scalars
